@@ -39,6 +39,14 @@ CONNECTION WITH THE USE OR PERFORMANCE OF THIS SOFTWARE.
 #define MAX_SFX_HEADER_LEN LHASA_VERIF_MAX_SFX_HEADER_LEN
 #endif
 
+#if defined(LHASA_VERIF) && defined(LHASA_VERIF_SFX_RESUME)
+// Verification hook: lets a harness start the self-extractor scan from
+// an arbitrary loop state and observe the state it reaches
+// (see /verif/DESIGN.md).
+static size_t lhasa_verif_sfx_filepos;
+static int lhasa_verif_sfx_skip_files;
+#endif
+
 // Size of the lead-in buffer used to skip the self-extractor.
 
 #define LEADIN_BUFFER_LEN 24
@@ -156,6 +164,11 @@ static int skip_sfx(LHAInputStream *stream)
 	filepos = 0;
 	skip_files = 0;
 
+#if defined(LHASA_VERIF) && defined(LHASA_VERIF_SFX_RESUME)
+	filepos = lhasa_verif_sfx_filepos;
+	skip_files = lhasa_verif_sfx_skip_files;
+#endif
+
 	while (filepos < MAX_SFX_HEADER_LEN) {
 
 		// Add some more bytes to the lead-in buffer:
@@ -192,6 +205,11 @@ static int skip_sfx(LHAInputStream *stream)
 
 		empty_leadin(stream, i);
 		filepos += i;
+
+#if defined(LHASA_VERIF) && defined(LHASA_VERIF_SFX_RESUME)
+		lhasa_verif_sfx_filepos = filepos;
+		lhasa_verif_sfx_skip_files = skip_files;
+#endif
 	}
 
 	return 0;
